@@ -6,6 +6,7 @@ import json, os, subprocess, sys, tempfile, shutil, time
 
 VERIF = "/verif"
 names = [a for a in sys.argv[1:] if not a.startswith("--")]
+TIER = next((a.split("=", 1)[1] for a in sys.argv[1:] if a.startswith("--tier=")), "quick")
 extra = {}
 for a in sys.argv[1:]:
     if a.startswith("--also="):
@@ -33,13 +34,20 @@ for name in names:
         for i in ids:
             t0 = time.time()
             env = dict(os.environ, VERIF_REPO=wt, VERIF_OUT=out)
-            r = subprocess.run([f"{VERIF}/check", i, "--tier", "quick"], capture_output=True, text=True, env=env, cwd=VERIF)
+            r = subprocess.run([f"{VERIF}/check", i, "--tier", TIER], capture_output=True, text=True, env=env, cwd=VERIF)
             nv = sum(1 for l in r.stdout.splitlines() if l.startswith("VIOLATION"))
             res[i] = {"exit": r.returncode, "violation_lines": nv, "wall_s": round(time.time() - t0, 1)}
             print(name, i, res[i], flush=True)
-        matrix[name] = res
-        meta["detected_by"] = [i for i, v in res.items() if v["exit"] == 1 and v["violation_lines"] > 0]
-        meta["checked_with"] = {i: f"exit {v['exit']}, {v['violation_lines']} VIOLATION lines (quick tier, scratch worktree of HEAD + patch)" for i, v in res.items()}
+        det = [i for i, v in res.items() if v["exit"] == 1 and v["violation_lines"] > 0]
+        how = {i: f"exit {v['exit']}, {v['violation_lines']} VIOLATION lines ({TIER} tier, scratch worktree of HEAD + patch)" for i, v in res.items()}
+        if TIER == "quick":
+            matrix[name] = res
+            meta["detected_by"] = det
+            meta["checked_with"] = how
+        else:
+            matrix[name + "@" + TIER] = res
+            meta["detected_by_" + TIER] = det
+            meta["checked_with_" + TIER] = how
         json.dump(meta, open(f"{d}/meta.json", "w"), indent=1)
     finally:
         subprocess.run(f"git -C /repo worktree remove --force {wt}", shell=True)
